@@ -1,7 +1,6 @@
 package raft
 
 import (
-	"bufio"
 	"encoding/binary"
 	"errors"
 	"fmt"
@@ -207,11 +206,22 @@ func (l *persistentLog) Open() error {
 }
 
 func (l *persistentLog) Replay() error {
-	reader := bufio.NewReader(l.file)
-
 	for {
-		entry, err := decodeLogEntry(reader)
-		if errors.Is(err, io.EOF) {
+		// Remember where this record starts. An append that was cut short by a crash leaves an
+		// incomplete record at the end of the file: it was never acknowledged and is dropped, so
+		// that the next append starts at a record boundary again.
+		offset, err := l.file.Seek(0, io.SeekCurrent)
+		if err != nil {
+			return fmt.Errorf("could not seek log file: %w", err)
+		}
+		entry, err := decodeLogEntry(l.file)
+		if errors.Is(err, io.EOF) || errors.Is(err, io.ErrUnexpectedEOF) {
+			if err := l.file.Truncate(offset); err != nil {
+				return fmt.Errorf("could not truncate log file: %w", err)
+			}
+			if _, err := l.file.Seek(offset, io.SeekStart); err != nil {
+				return fmt.Errorf("could not seek log file: %w", err)
+			}
 			break
 		}
 		if err != nil {
